@@ -36,10 +36,14 @@ func main() {
 		tieC:  res.Tie("coll-seq", "K1", "random call sequences on a Collection (ids from {'',a,b,c,A,B}+generated, every subset of the write/read options, id interceptors, fixed/ticking clock, scripted rng incl. forced collisions/exhaustion); compared per call: result, code, bus events, callbacks, contents with stored times, clock. distinct = distinct (config, call, contents-before)"),
 		tieV:  res.Tie("value-seq", "K1", "random call sequences on a Value (with/without initial value, writable fields, all write options); compared per call as above"),
 		tieS:  res.Tie("small-scope", "K2", "ALL call sequences up to the stated length over ids {a,b}, values {1//-,2/x/-}, ops add/upd/upd+create/del/del+allow-missing/get/list; distinct = distinct sequences"),
+		tieO: res.Tie("shared-options", "K2", "ALL call sequences up to the stated length over add/upd/del/get/list on one id where every call takes a view opts[:k] (every k) of ONE option slice with spare capacity (a caller re-using its option list): compared per call as above; distinct = distinct sequences"),
+		tieM: res.Tie("mask-shapes", "K2", "ALL combinations of writable fields x update mask x reset mask x stored message x written message over masks naming the nested message field, its sub-fields, both, and other fields (parents/children), one Update (create-if-absent) followed by Gets under nested read masks; compared per call as above; distinct = distinct combinations"),
 		mon:   res.Monitor("reference-map", "every call of every tie run is checked against a plain Go register/map oracle (fieldwise merge) and the property's clauses: failed call => contents and clock-free state unchanged and no bus event; List = sorted filtered contents; generated id non-empty, unused, reported once, usable"),
 	}
 	r := lib.NewRand(f.Seed)
 	h.smallScope(f.N(3, 4))
+	h.sharedScope(f.N(2, 3))
+	h.maskScope(f.Tier == "thorough")
 	// the defect witnesses first (small, fixed), then random
 	for _, s := range fixedScripts() {
 		h.runScript(s, h.tieFor(s))
@@ -54,6 +58,8 @@ func main() {
 		h.runScript(s, h.tieFor(s))
 	}
 	h.tieS.Exhaustive = true
+	h.tieO.Exhaustive = true
+	h.tieM.Exhaustive = true
 	res.Extra["ops_total"] = h.ops
 	pw := h.cover.report([]string{"upd", "add", "del", "vset", "get", "list", "vget"}, []string{"rm", "inc"})
 	res.Extra["pairwise_option_coverage"] = pw
@@ -67,6 +73,7 @@ type harness struct {
 	cover            *pairCover
 	drv              *lib.Driver
 	tieC, tieV, tieS *lib.Tie
+	tieO, tieM       *lib.Tie
 	mon              *lib.Monitor
 	ops              int
 }
@@ -79,20 +86,25 @@ func (h *harness) tieFor(s Script) *lib.Tie {
 }
 
 // runCode executes the script on the real code: one answer per op.
-func runCode(s Script) (out []string, init string) {
+func runCode(s Script) (out []string, init string, notes []string) {
 	r := newReal(s.Cfg, true)
+	r.share = s.Share
+	r.prepare(s.Ops)
 	defer r.close()
 	init = r.dump()
 	out = make([]string, len(s.Ops))
+	notes = make([]string, len(s.Ops))
 	for i, op := range s.Ops {
 		if op.isWrite() {
 			a, _ := r.runWrite(op)
+			notes[i] = r.note
 			out[i] = a + " | " + r.dump()
 		} else {
 			out[i] = r.runRead(op)
+			notes[i] = r.note
 		}
 	}
-	return out, init
+	return out, init, notes
 }
 
 func runOracle(s Script) []string {
@@ -120,10 +132,12 @@ func (h *harness) runModel(s Script) ([]string, error) {
 	return ans[1:], nil
 }
 
-func prefix(s Script, n int) Script { return Script{Cfg: s.Cfg, Ops: append([]Op(nil), s.Ops[:n]...)} }
+func prefix(s Script, n int) Script {
+	return Script{Cfg: s.Cfg, Ops: append([]Op(nil), s.Ops[:n]...), Share: s.Share}
+}
 
 func (h *harness) runScript(s Script, tie *lib.Tie) {
-	code, pre := runCode(s)
+	code, pre, notes := runCode(s)
 	model, err := h.runModel(s)
 	if err != nil {
 		tie.Fail(err)
@@ -133,10 +147,11 @@ func (h *harness) runScript(s Script, tie *lib.Tie) {
 	for i, op := range s.Ops {
 		h.ops++
 		key := s.Cfg.line() + "#" + op.line() + "#" + pre
-		if tie == h.tieS {
+		small := tie == h.tieS || tie == h.tieO || tie == h.tieM
+		if small {
 			key = scriptKey(s)
 		}
-		tie.Record(key, tie != h.tieS || i == len(s.Ops)-1, map[string]any{"script": prefix(s, i+1)}, model[i], code[i])
+		tie.Record(key, !small || i == len(s.Ops)-1, map[string]any{"script": prefix(s, i+1)}, model[i], code[i])
 		tie.Count("op:" + op.Op)
 		h.cover.call(op.Op, op)
 		if op.isWrite() {
@@ -153,7 +168,7 @@ func (h *harness) runScript(s Script, tie *lib.Tie) {
 			tie.Count("opt:" + strings.SplitN(t, "=", 2)[0])
 		}
 		h.mon.Eval(key, true, nil)
-		monitorOp(h.mon, s, i, want[i], code[i], pre)
+		monitorOp(h.mon, s, i, want[i], code[i], pre, notes[i])
 		if op.isWrite() {
 			pre = afterBar(code[i])
 		}
@@ -192,13 +207,16 @@ var callName = map[string]string{"upd": "Collection.Update", "add": "Collection.
 
 // monitorOp evaluates the property on one call of the real code: want is the oracle's answer,
 // got the code's, pre the contents dump before the call.
-func monitorOp(m *lib.Monitor, s Script, i int, want, got, pre string) {
+func monitorOp(m *lib.Monitor, s Script, i int, want, got, pre, note string) {
 	op := s.Ops[i]
 	in := map[string]any{"script": prefix(s, i+1)}
 	name := "C01/" + callName[op.Op]
 	if strings.HasPrefix(got, "panic:") || strings.HasPrefix(got, "!") {
 		m.Violate(name+"/panic-or-stall", "the call panicked or did not return", in, want, got)
 		return
+	}
+	if note != "" {
+		m.Violate(name+"/caller-options-overwritten", "the call wrote to the option slice of its caller: later calls given a longer view of the same slice run with other options than the caller put there", in, "the caller's option array unchanged", note)
 	}
 	if !op.isWrite() {
 		if want != got {
@@ -216,7 +234,7 @@ func monitorOp(m *lib.Monitor, s Script, i int, want, got, pre string) {
 			m.Violate("C01/failed-call/event-emitted", "a failing call emitted a bus event", in, "[]", part(got, "ev"))
 		}
 	}
-	if op.has("gid") && s.Cfg.Kind == "coll" && !failed && newOracle(s.Cfg).icpt(op.ID) == "" {
+	if op.has("gid") && (op.Op == "add" || op.Op == "upd") && s.Cfg.Kind == "coll" && !failed && newOracle(s.Cfg).icpt(op.ID) == "" {
 		monitorGenID(m, s, i, got, pre)
 	}
 	for _, p := range []struct{ key, sig, what string }{
@@ -260,6 +278,8 @@ func monitorGenID(m *lib.Monitor, s Script, i int, got, pre string) {
 	}
 	m.Count("genid:usable-checked")
 	r := newReal(s.Cfg, false)
+	r.share = s.Share
+	r.prepare(s.Ops[:i+1])
 	defer r.close()
 	for _, op := range s.Ops[:i+1] {
 		if op.isWrite() {
@@ -305,9 +325,17 @@ func repeatOp(o Op, n int) []Op {
 // genScript generates a call sequence while stepping the oracle, so that ids and preconditions can
 // be chosen relative to the current contents.
 func genScript(r *rand.Rand, n int) Script {
-	s := Script{Cfg: genCfg(r)}
+	s := Script{Cfg: genCfg(r), Share: r.Intn(3) == 0}
 	o := newOracle(s.Cfg)
 	genHeavy := r.Intn(6) == 0
+	// a caller that keeps one option list for the whole run and passes prefixes of it
+	var master, masterR []string
+	if s.Share {
+		for len(master) < 3 {
+			master = append(master, genWriteOpts(r, "upd", nil)...)
+		}
+		masterR = append(genReadOpts(r, true), genReadOpts(r, true)...)
+	}
 	for i := 0; i < n; i++ {
 		var op Op
 		if s.Cfg.Kind == "val" {
@@ -348,6 +376,21 @@ func genScript(r *rand.Rand, n int) Script {
 				op = Op{Op: "list", Opts: genReadOpts(r, true)}
 			}
 		}
+		op.Opts = withRepeats(r, op.Opts, op.Op)
+		if s.Share && r.Intn(5) < 3 {
+			if op.isWrite() {
+				k := r.Intn(len(master) + 1)
+				op.Opts = master[:k:k]
+			} else if len(masterR) > 0 {
+				k := r.Intn(len(masterR) + 1)
+				op.Opts = nil
+				for _, t := range masterR[:k] {
+					if op.Op == "list" || !strings.HasPrefix(t, "inc=") {
+						op.Opts = append(op.Opts, t)
+					}
+				}
+			}
+		}
 		o.step(op)
 		s.Ops = append(s.Ops, op)
 	}
@@ -382,6 +425,98 @@ func (h *harness) smallScope(maxLen int) {
 	h.tieS.Count(fmt.Sprintf("alphabet=%d maxLen=%d", len(alpha), maxLen))
 }
 
+// maskScope: the full product of mask shapes around the nested message field (parent, children, both).
+func (h *harness) maskScope(thorough bool) {
+	ws := []string{"", "f", "fc", "fc,fd", "a,fd", "0"}
+	ums := []string{"", "0", "f", "fc", "fd", "fc,fd", "f,fc", "a,fc", "fd,x"}
+	rss := []string{"", "fc"}
+	stored := []string{"", "1/x/-", "1/x/-/5:6/-", "1//-/0:0/-"}
+	written := []string{"2//-", "2//-/0:9/-", "2//-/3:0/-", "0//-/0:0/-"}
+	if thorough {
+		ws = append(ws, "f,fc", "a,s,c,r", "fd")
+		ums = append(ums, "fd,f", "fc,fc", "a", "fc,fd,s")
+		rss = append(rss, "f", "fd,fc", "a,fd")
+		written = append(written, "2/y/4/7:7/1")
+	}
+	n := 0
+	for _, w := range ws {
+		for _, um := range ums {
+			for _, rs := range rss {
+				for _, st := range stored {
+					for _, wr := range written {
+						cfg := Cfg{Kind: "coll", Tick: 1}
+						if w != "" {
+							w := w
+							cfg.W = &w
+						}
+						if st != "" {
+							cfg.Init = []string{"a~" + st}
+						}
+						opts := []string{"cia"}
+						if um != "" {
+							opts = append(opts, "um="+um)
+						}
+						if rs != "" {
+							opts = append(opts, "rs="+rs)
+						}
+						ops := []Op{{Op: "upd", ID: "a", Msg: wr, Opts: opts}, {Op: "get", ID: "a", Opts: []string{"rm=fc"}},
+							{Op: "get", ID: "a", Opts: []string{"rm=fd,f"}}, {Op: "list", Opts: []string{"rm=a,fd"}}}
+						h.runScript(Script{Cfg: cfg, Ops: ops}, h.tieM)
+						n++
+					}
+				}
+			}
+		}
+	}
+	h.tieM.Count(fmt.Sprintf("combinations=%d", n))
+}
+
+// sharedScope runs ALL sequences of length <= maxLen in which
+// every call is given a view opts[:k] of one option slice the caller keeps for the whole run.
+func (h *harness) sharedScope(maxLen int) {
+	lists := []struct {
+		w, r   []string
+		maxLen int
+	}{
+		{[]string{"um=a", "chk=aEq:1", "af=stampC", "cia"}, []string{"rm=a", "inc=aPos", "rm=s"}, maxLen},
+		{[]string{"ev=1//-", "am", "bf=bumpA", "xa", "wt=5"}, []string{"inc=sEmpty", "rm=c"}, maxLen},
+		{[]string{"gid", "icb", "ccb", "rs=s", "nw"}, []string{"rm=0"}, maxLen},
+	}
+	for li, l := range lists {
+		var alpha []Op
+		for k := 0; k <= len(l.w); k++ {
+			v := l.w[:k:k]
+			alpha = append(alpha, Op{Op: "add", ID: "a", Msg: "1/x/-", Opts: v}, Op{Op: "upd", ID: "a", Msg: "2//4", Opts: v},
+				Op{Op: "del", ID: "a", Opts: v})
+			if li == 2 {
+				alpha = append(alpha, Op{Op: "add", ID: "", Msg: "3//-", Opts: v})
+			}
+		}
+		for k := 0; k <= len(l.r); k++ {
+			alpha = append(alpha, Op{Op: "list", Opts: l.r[:k:k]})
+		}
+		cfg := Cfg{Kind: "coll", Tick: 1}
+		if li == 2 {
+			w := "a,s"
+			cfg.W = &w
+		}
+		var rec func(ops []Op)
+		rec = func(ops []Op) {
+			if len(ops) > 0 {
+				h.runScript(Script{Cfg: cfg, Ops: ops, Share: true}, h.tieO)
+			}
+			if len(ops) == l.maxLen {
+				return
+			}
+			for _, a := range alpha {
+				rec(append(append([]Op(nil), ops...), a))
+			}
+		}
+		rec(nil)
+		h.tieO.Count(fmt.Sprintf("list %d: alphabet=%d maxLen=%d", li, len(alpha), l.maxLen))
+	}
+}
+
 // ---------------------------------------------------------------------------------------------
 
 func replay(f lib.Flags) int {
@@ -400,11 +535,11 @@ func replay(f lib.Flags) int {
 		lib.Fatal(err)
 	}
 	m := lib.NewMonitor("replay", "")
-	code, pre := runCode(s)
+	code, pre, notes := runCode(s)
 	want := runOracle(s)
 	for i, op := range s.Ops {
 		fmt.Printf("%-60s -> %s\n", op.line(), code[i])
-		monitorOp(m, s, i, want[i], code[i], pre)
+		monitorOp(m, s, i, want[i], code[i], pre, notes[i])
 		if op.isWrite() {
 			pre = afterBar(code[i])
 		}
